@@ -8,6 +8,7 @@ and mining with the least sufficient zero count (which is what the repaired code
 same expression as Score) returns only nonces whose score meets the target and never passes one over.
 -/
 import Iota.Proofs.Pow
+import Iota.Proofs.PowScore
 
 namespace Iota.Props.C11
 open Iota.Pow Iota.Proofs.Pow
@@ -47,6 +48,30 @@ theorem trivially_low_target (l h : Planes) : checkV1 l h 0 = 0 := by
     · exact absurd (Nat.zero_le _) (this 0 hp)
   · have h64 : checkV1 l h 0 = 64 := by omega
     exact absurd (Nat.zero_le _) (h0.2.2 h64 0 (by omega))
+
+/-! ### up to `Score(data ‖ nonce)` (see the corresponding section of Props/C12.lean for the modelling and the one
+hypothesis `BctFaithful` about the external batched sponge) -/
+open Iota.PowScore Iota.Proofs.PowScore in
+/-- a nonce returned by a v1 worker started anywhere is the FIRST nonce in its scan order whose hash has at least z
+trailing zero trits … -/
+theorem worker_returns_first_qualifying (slice : (Fin 64 → List Int) → Planes × Planes) (hslice : BctFaithful slice)
+    (digest : List UInt8) (start fuel z n : Nat) (hz : z ≤ 243)
+    (hw : worker slice (testV1 z) digest start fuel = some n) :
+    ∃ k, k < 64 * fuel ∧ n = (start + k) % 2 ^ 64 ∧ z ≤ trailingZeros (hashTrits digest n) ∧
+      ∀ k', k' < k → ¬ z ≤ trailingZeros (hashTrits digest ((start + k') % 2 ^ 64)) :=
+  worker_v1 slice hslice digest start fuel z n hz hw
+
+open Iota.PowScore Iota.Proofs.PowScore in
+/-- … hence, for any monotone score (the abstraction of `math.Pow(3, z)/len`), `Score(data ‖ nonce) ≥ target` whenever the
+required zero count z satisfies `target ≤ sc z` (which is how the repaired `Mine` chooses z). -/
+theorem returned_nonce_scores {F : Type} [LE F] (le_trans : ∀ a b c : F, a ≤ b → b ≤ c → a ≤ c)
+    (sc : Nat → Nat → F) (mono : ∀ len a b, a ≤ b → sc len a ≤ sc len b)
+    (slice : (Fin 64 → List Int) → Planes × Planes) (hslice : BctFaithful slice)
+    (H : List UInt8 → List UInt8) (data : List UInt8) (target : F) (z start fuel n : Nat) (hz : z ≤ 243)
+    (hsat : target ≤ sc (data.length + 8) z)
+    (hw : worker slice (testV1 z) (H data) start fuel = some n) :
+    target ≤ ScoreV1 sc H data n ∧ target ≤ ScoreMsgV1 sc H (data ++ nonceBytes n) :=
+  mine_v1_score le_trans sc mono slice hslice H data target z start fuel n hz hsat hw
 
 /-! ### non-vacuity -/
 example : trailingZeros [1, 0, -1, 0, 0] = 2 ∧ trailingZeros [0, 0] = 2 ∧ trailingZeros [0, 1] = 0 := by decide
